@@ -13,8 +13,12 @@ RULE = ('one case = one public call (get_kmers / get_minimizers / match_string /
         'one (rows sliced off, boolean mask, reordering, first column trimmed), a single sequence as a 1-d array, or '
         'equal-length sequences as a 2-d array; non-trivial = at least two rows and at least one row holds a window')
 EXHAUSTIVE = {'quick': False, 'thorough': False}
-TIE = ('correspondence (Model.C13 rolling / get_kmers incl. the uint64 register model / get_minimizers / match_string / '
-       'get_motif_scores / count_kmers / encode / to_string evaluated in Coq on the same rows)')
+TIE = 'translator+correspondence'
+TIE_DETAIL = ('translator: translate/gen_c13.py regenerates Gen/C13.v (17 definitions: the column-slice bound at the four trim sites, '
+              'k-mer weights, encode weights, to_string digits and tests, number of labels, minimizer window arithmetic, PWM pass '
+              'bounds) and Bridge/C13.v + Props.C13_source_tie re-prove them equal to the model helpers on every run; '
+              'correspondence: Model.C13 rolling / get_kmers incl. the uint64 register model / get_minimizers / match_string / '
+              'get_motif_scores / count_kmers / encode / to_string evaluated in Coq on the same rows')
 ASSUMPTIONS = ['domain of the property: letters of the alphabet only, 1 <= k <= window <= 31, total letters >= window, |A|^k < 2^63 '
                '(int64 wrap-around is outside the property and not modelled)',
                'motif matrices have small integer entries, so float accumulation is exact and scores are compared as integers; '
@@ -272,9 +276,9 @@ def observe(case):
                 if joined != ','.join(ke.to_string(h) for h in single):
                     out.append([-2])               # array rendering must be the join of the single renderings
             return dict(out=out)
-    except (ValueError, IndexError, AssertionError, TypeError, OverflowError, KeyError, ZeroDivisionError) as e:
+        raise RuntimeError('unknown op')
+    except Exception as e:          # whatever the library raises is the observation; it fails the comparison in Coq
         return dict(error=type(e).__name__, msg=str(e)[:120])
-    raise RuntimeError('unknown op')
 
 
 def _codes(case, s):
